@@ -149,7 +149,7 @@ fn perturb_top(data: &Value, first: &str) -> Vec<Value> {
 pub fn run(ctx: &mut Ctx) {
     let thorough = ctx.tier_thorough;
     // the debug profile gets the smaller tree set (it is there for overflow checks)
-    let depth = if ctx.profile == "release" { 2 } else { 1 };
+    let depth = if ctx.profile != "dev" { 2 } else { 1 };
     let ts = trees(depth, thorough);
     let ps = paths(thorough);
     let mut unspecified_set: std::collections::HashSet<&str> = std::collections::HashSet::new();
